@@ -36,7 +36,7 @@ func c13Token(q *UpQuery) string {
 }
 
 func TestVfC13Framing(t *testing.T) {
-	st := vfkit.Stats("TestVfC13Framing", "k in 1..60 pipelined queries of 17 B..4 KiB (one near-64 KiB class) on tcp / gnet / tls listeners, byte stream cut by a drawn segmentation plan (inside the 2-octet prefix, inside bodies, several frames per segment, 1-octet segments, optional 1-3 ms pauses), per-query upstream delays (concurrent, out-of-order completion), max_concurrent_queries in {default,1,2,5} with gated upstream replies; oracle: return stream is exactly k frames whose prefixes equal their body lengths, each body decodes, response IDs = query IDs as multisets, each answer belongs to its own query, exactly k-max REFUSED when the limit is exceeded; non-trivial = a cut inside a prefix or body with k >= 2, or the limit exceeded")
+	st := vfkit.Stats("TestVfC13Framing", "k in 1..60 pipelined queries of 17 B..4 KiB (one near-64 KiB class) on tcp / gnet / tls listeners, byte stream cut by a drawn segmentation plan (inside the 2-octet prefix, inside bodies, several frames per segment, 1-octet segments, optional 1-3 ms pauses), per-query upstream delays (concurrent, out-of-order completion), max_concurrent_queries in {default,1,2,5} with gated upstream replies, in one case of three preceded by 1-6 connections that die in the middle of a frame; oracle: return stream is exactly k frames whose prefixes equal their body lengths, each body decodes, response IDs = query IDs as multisets, each answer belongs to its own query, exactly k-max REFUSED when the limit is exceeded; non-trivial = a cut inside a prefix or body with k >= 2, or the limit exceeded")
 	defer vfkit.Flush()
 	env := &c13Env{proxies: map[int]*Proxy{}, ips: map[int]string{}}
 	block := NextIPBlock()
@@ -165,6 +165,34 @@ func TestVfC13Framing(t *testing.T) {
 		if listener == "tls" {
 			tcfg = &tls.Config{InsecureSkipVerify: true}
 		}
+		// Other connections that die in the middle of a frame just before this one is opened: whatever reassembly state
+		// they leave behind belongs to them alone.
+		nAbort := 0
+		if rapid.IntRange(0, 2).Draw(t, "abortedBefore") == 0 {
+			nAbort = rapid.IntRange(1, 6).Draw(t, "nAborted")
+		}
+		for i := 0; i < nAbort; i++ {
+			ac, err := DialStream("", fmt.Sprintf("%s:%d", env.ips[mc], ListenerPorts[listener]), tcfg, 3*time.Second)
+			if err != nil {
+				t.Fatalf("dial %s: %v", listener, err)
+			}
+			switch rapid.IntRange(0, 2).Draw(t, "abortShape") {
+			case 0:
+				ac.C.Write([]byte{0x01}) // half a prefix
+			case 1:
+				ac.C.Write(append([]byte{0x01, 0x2c}, bytes.Repeat([]byte{0xAA}, rapid.IntRange(0, 299).Draw(t, "abortBody"))...)) // prefix 300 + part of the body
+			default:
+				f := frame(qs[0].wire)
+				ac.C.Write(f[:len(f)-1]) // a whole query but its last octet
+			}
+			if rapid.Bool().Draw(t, "abortLinger") {
+				time.Sleep(2 * time.Millisecond)
+			}
+			ac.Close()
+		}
+		if nAbort > 0 {
+			time.Sleep(3 * time.Millisecond)
+		}
 		c, err := DialStream("", fmt.Sprintf("%s:%d", env.ips[mc], ListenerPorts[listener]), tcfg, 3*time.Second)
 		if err != nil {
 			t.Fatalf("dial %s: %v", listener, err)
@@ -249,6 +277,9 @@ func TestVfC13Framing(t *testing.T) {
 		}
 		if inside {
 			classes = append(classes, "segmented")
+		}
+		if nAbort > 0 {
+			classes = append(classes, "after-aborted-connections")
 		}
 		st.Case(vfkit.Fingerprint(stream, fmt.Sprint(cuts), listener, mc), (inside && k >= 2) || over > 0, classes, func() any {
 			return map[string]any{"listener": listener, "k": k, "max_concurrent": mc, "cuts": cuts[:min(len(cuts), 20)], "stream_len": len(stream), "refused": refused}
